@@ -112,6 +112,11 @@ def _emit_fn(gen, root, fn, canary_false=False, body_assumed=False):
         for (rx, rep, why) in fn.body_resub:
             n = len(re.findall(rx, body, flags=re.S))
             every = why.startswith('every:')          # a syntactic rule applied to every occurrence (>= 0) instead of exactly one site
+            if n == 0 and not every:
+                # the white space the pattern allows may also hold comments (a comment added inside the matched expression does not lose the rule)
+                rx2 = rx.replace(r'\s*', r'(?:\s|//[^\n]*\n)*').replace(r'\s+', r'(?:\s|//[^\n]*\n)+')
+                if rx2 != rx and len(re.findall(rx2, body, flags=re.S)) == 1:
+                    rx, n = rx2, 1
             if n != 1 and not every:
                 raise X.ExtractError('ANCHOR-LOST body_resub in %s::%s: /%s/ matches %d times' % (fn.file, fn.name, rx, n))
             if n == 0:
@@ -303,6 +308,10 @@ def _emit_lifted(gen, root, lf, canary_false=False):
         ctext = X.r31_result_inspect(ctext, fired)
     for (rx, rep, why) in getattr(lf, 'body_resub', ()):
         n = len(re.findall(rx, ctext, flags=re.S))
+        if n == 0:
+            rx2 = rx.replace(r'\s*', r'(?:\s|//[^\n]*\n)*').replace(r'\s+', r'(?:\s|//[^\n]*\n)+')
+            if rx2 != rx and len(re.findall(rx2, ctext, flags=re.S)) == 1:
+                rx, n = rx2, 1
         if n != 1:
             raise X.ExtractError('ANCHOR-LOST body_resub in lifted closure %d of %s: /%s/ matches %d times' % (lf.nth, lf.name, rx, n))
         ctext = re.sub(rx, lambda mm: X._pad(mm.expand(rep), mm.group(0)), ctext, count=1, flags=re.S)
